@@ -1066,9 +1066,22 @@ impl Quil for Call {
         fall_back_to_debug: bool,
     ) -> crate::quil::ToQuilResult<()> {
         write!(f, "CALL {}", self.name)?;
+        let mut previous: Option<&UnresolvedCallArgument> = None;
         for argument in self.arguments.as_slice() {
             write!(f, " ")?;
+            // A real number followed by a negative imaginary number (`1 -2.0i`) reads as the single
+            // complex number `1-2.0i`, so the latter is then written with its real part: `1 0-2.0i`.
+            if let (
+                Some(UnresolvedCallArgument::Immediate(previous)),
+                UnresolvedCallArgument::Immediate(value),
+            ) = (previous, argument)
+            {
+                if previous.im == 0f64 && value.re == 0f64 && value.im < 0f64 {
+                    write!(f, "0")?;
+                }
+            }
             argument.write(f, fall_back_to_debug)?;
+            previous = Some(argument);
         }
         Ok(())
     }
